@@ -1,6 +1,7 @@
 package props
 
 import (
+	"bytes"
 	"fmt"
 	"strings"
 	"testing"
@@ -65,8 +66,10 @@ func c12ExactOracle(c *vlib.Case) *vlib.Violation {
 			wb, we = trimBlank(src, wb, we)
 			gb, ge = trimBlank(src, gb, ge)
 		}
-		if (w.T == 'S' || w.T == 'E') && wb == gb && ge > we && onlyTrivia(src[we+1:ge+1]) {
-			continue // the schema reader takes '#' comments that directly follow a body into the body extent
+		if (w.T == 'S' || w.T == 'E') && wb == gb && ge > we && onlyTrivia(src[we+1:ge+1]) && bytes.IndexByte(src[we+1:ge+1], '#') >= 0 {
+			// the schema reader takes '#' comments that directly follow a body (and the blanks before them) into the body
+			// extent; blanks alone do not belong to it
+			continue
 		}
 		if wb != gb || we != ge {
 			return vlib.V(fmt.Sprintf("c12:exact:extent:%c", w.T), "lexeme #%d %c: rendered [%d:%d] %q, scanned [%d:%d] %q", i, w.T, wb, we, clipRange(src, wb, we), gb, ge, clipRange(src, gb, ge))
